@@ -1399,8 +1399,10 @@ func (f *FuncVC) convert(st *State, v Val, from, to types.Type, pos token.Pos) V
 		r := f.newRef(st, "bytes")
 		key := "E.BV8"
 		arr := f.heapGet(st, key, elemArraySort(KBV, 8))
-		a := f.freshConst("strbytes", "(Array Int (_ BitVec 8))")
-		f.assume("(forall ((k Int)) (! (=> (and (<= 0 k) (< k (slen " + v.T + "))) (= (select " + a + " k) (sat " + v.T + " k))) :pattern ((select " + a + " k))))")
+		// the contents are str2arr(s) (prelude: element k is byte k of s for 0 <= k < len; the elements outside the
+		// length cannot be observed — every access is bounds-checked): canonical, so that spec functions taking the
+		// converted bytes "by content" see the same term for equal strings (spec side: bytesof(s))
+		a := "(str2arr " + v.T + ")"
 		// r is fresh: the heap at r was never constrained, so initialisation is a fact about the same heap version
 		f.assume("(= (select " + arr + " " + r + ") " + a + ")")
 		res.T = f.define("sl", "Slice", "(mkslice "+r+" 0 (slen "+v.T+") (slen "+v.T+"))")
